@@ -91,8 +91,8 @@ def integer : P Nat := do
 def integerSx : P Sx := do let v ← integer; pure (sxInteger v)
 
 def signedInteger : P Sx :=
-  (do let _ ← opt (tok "Plus"); let v ← integer; pure (sxSigned v false))
-  <|> (do let _ ← tok "Minus"; let v ← integer; pure (sxSigned v true))
+  (do let _ ← opt (do let _ ← tok "Plus"; ws); let v ← integer; pure (sxSigned v false))
+  <|> (do let _ ← tok "Minus"; ws; let v ← integer; pure (sxSigned v true))
 
 def binaryInteger : P Nat := do
   let t ← tok "BinDigits"
